@@ -208,6 +208,30 @@ func (s *retScenario) cuts() *Cuts {
 			}
 		})
 	}
+	// a boolean result with a constant value on this return (`return position{}, false, nil`): the tests of it
+	for i, v := range s.vals {
+		k, isK := v.(*ssa.Const)
+		if !isK || k.Value == nil || !isBoolType(k.Type()) {
+			continue
+		}
+		ex := extractOf(s.call, i)
+		if ex == nil {
+			continue
+		}
+		truth := k.Value.String() == "true"
+		assumed[ex] = truth
+		t, fl := boolEdges(ex)
+		if truth {
+			cuts.addEdges(fl)
+		} else {
+			cuts.addEdges(t)
+		}
+	}
+	for _, f := range s.reg.Funcs() {
+		if f != helper {
+			cuts.closeBoolPhisWith(f, assumed)
+		}
+	}
 	return liftBoolHelpersExcept(s.reg, cuts, assumed, helper)
 }
 
